@@ -244,3 +244,168 @@ def canary_ratio_is_always_one(S):
     S.patch(amod, "Allocation", Capture)
     out = S.call(a.initial_allocation, n, True)
     S.ensure("canary.full_cell", seq(out.value.captured[0][1]["M0"], 1) if out.ok else False)
+
+
+# ---- bounded leg: larger concrete designs end to end (the symbolic runs hold one arbitrary cell and <= 3 modules) ------------------------
+
+def _ov(a, b):
+    """overlap area of two boxes (x0, y0, x1, y1)"""
+    w = min(a[2], b[2]) - max(a[0], b[0])
+    h = min(a[3], b[3]) - max(a[1], b[1])
+    return w * h if w > 0 and h > 0 else 0.0
+
+
+def _bx(cx, cy, w, h):
+    return (cx - w / 2, cy - h / 2, cx + w / 2, cy + h / 2)
+
+
+def _design(rng):
+    """die with blockages / specialised regions on an integer lattice + netlist (soft squares, soft / hard with rectangles, fixed blocks)"""
+    W, H = rng.randint(8, 16), rng.randint(6, 12)
+    taken = []
+
+    def free_box(w, h, tries=40):
+        for _ in range(tries):
+            x, y = rng.randint(0, W - w), rng.randint(0, H - h)
+            b = (x, y, x + w, y + h)
+            if all(_ov(b, t) == 0 for t in taken):
+                taken.append(b)
+                return b
+        return None
+    regions = []
+    for tag in rng.sample(["#", "DSP", "BRAM", "#"], rng.randint(0, 3)):
+        b = free_box(rng.randint(1, 3), rng.randint(1, 3))
+        if b:
+            regions.append([(b[0] + b[2]) / 2, (b[1] + b[3]) / 2, b[2] - b[0], b[3] - b[1], tag])
+    mods, shapes = {}, {}
+    for i in range(rng.randint(3, 7)):
+        nm = f"M{i}"
+        kind = rng.choice(["square", "square", "soft_rects", "hard", "fixed", "fixed"])
+        if kind == "fixed":
+            b = free_box(rng.randint(1, 3), rng.randint(1, 2))
+            if b is None:
+                kind = "square"
+            else:
+                mods[nm] = {"fixed": True, "rectangles": [[(b[0] + b[2]) / 2, (b[1] + b[3]) / 2, b[2] - b[0], b[3] - b[1]]]}
+                shapes[nm] = ("fixed", [b])
+                continue
+        if kind == "square":
+            a = rng.choice([1, 2.25, 4, 6.25, 9])
+            c = [rng.randint(0, 2 * W) / 2, rng.randint(0, 2 * H) / 2]            # may stick out of the die
+            mods[nm] = {"area": a, "center": c}
+            s = a ** 0.5
+            shapes[nm] = ("soft", [_bx(c[0], c[1], s, s)])
+        else:
+            x, y = rng.randint(1, W - 3), rng.randint(1, H - 3)
+            rs = [[x + 1.0, y + 0.5, 2.0, 1.0]] + ([[x + 0.5, y + 1.5, 1.0, 1.0]] if rng.random() < 0.6 else [])      # disjoint: an L
+            if kind == "hard":
+                mods[nm] = {"hard": True, "rectangles": rs}
+            else:
+                mods[nm] = {"area": 3.0, "rectangles": rs}
+            shapes[nm] = ("soft", [_bx(*r) for r in rs])
+    names = list(mods)
+    doc = {"Modules": mods, "Nets": [names[:2]] if len(names) >= 2 else []}
+    die = {"width": W, "height": H}
+    if regions:
+        die["regions"] = regions
+    return die, doc, shapes, rng.choice([0, 0, 3, 7])
+
+
+@contract(P, kind="enum", functions=["frame.allocation.allocation.create_initial_allocation", A + "initial_allocation", A + "_detect_fixed_rectangles",
+                                     "frame.netlist.netlist.Netlist.create_squares", "frame.die.die.Die.floorplanning_rectangles"],
+          scope="bounded: concrete dies (blockages, specialised regions, 0-3 fixed modules, optionally refined) x netlists of 3-7 modules, both values of include-zero",
+          params=[dict(chunk=i) for i in range(8)])
+def larger_designs_end_to_end(chunk, replay=None):
+    import os
+    import random
+    from frame.die.die import Die
+    from frame.utils.utils import write_yaml
+    tier = os.environ.get("VERIF_TIER", "quick")
+    rng = random.Random(300 + chunk + 100 * int(os.environ.get("VERIF_SEED", "0") or 0))
+    n_des = 25 if tier != "thorough" else 400
+    failures, evals, nontriv, samples, nfixed = [], 0, 0, [], {}
+    for it in range(n_des):
+        if replay:
+            die_doc, doc, shapes, refine_n, zero_opts = replay["die"], replay["netlist"], {k: (v[0], [tuple(b) for b in v[1]]) for k, v in replay["shapes"].items()}, replay["refine"], [replay["zero"]]
+        else:
+            die_doc, doc, shapes, refine_n = _design(rng)
+            zero_opts = [False, True]
+        for zero in zero_opts:
+            info = dict(die=die_doc, netlist=doc, shapes={k: [v[0], [list(b) for b in v[1]]] for k, v in shapes.items()}, refine=refine_n, zero=zero)
+            Rectangle.undefine_epsilon()
+            try:
+                n = Netlist(write_yaml(doc))
+                d = Die(write_yaml(die_doc), n)
+                if refine_n:
+                    d.split_refinable_regions(2.0, refine_n)
+            except AssertionError:
+                break           # the generator made an inconsistent design (e.g. module rectangles overlapping): not this property's business
+            refinable, fixed = d.floorplanning_rectangles()
+            cells = [(_bx(r.center.x, r.center.y, r.shape.w, r.shape.h), False) for r in refinable] + [(_bx(r.center.x, r.center.y, r.shape.w, r.shape.h), True) for r in fixed]
+            # expected allocation from the definition
+            exp = []
+            for box_, is_fixed in cells:
+                ca = (box_[2] - box_[0]) * (box_[3] - box_[1])
+                if is_fixed:
+                    owner = [nm for nm, (k, bs) in shapes.items() if k == "fixed" and any(abs(_ov(box_, b) - ca) < 1e-9 for b in bs)]
+                    exp.append({owner[0]: 1.0} if len(owner) == 1 else None)
+                else:
+                    e = {}
+                    for nm, (k, bs) in shapes.items():
+                        if k == "fixed":
+                            if zero:
+                                e[nm] = 0.0
+                            continue
+                        frac = sum(_ov(box_, b) for b in bs) / ca
+                        if frac > 0 or zero:
+                            e[nm] = frac
+                    exp.append(e)
+            touches = {nm: any((k == "fixed") or any(_ov(c[0], b) > 0 for c in cells if not c[1]) for b in bs) for nm, (k, bs) in shapes.items()}
+            if not zero and not all(touches.values()):
+                continue        # the property restricts the option to designs in which every module touches some cell
+            evals += 1
+            nf = sum(1 for v in shapes.values() if v[0] == "fixed")
+            nfixed[nf] = nfixed.get(nf, 0) + 1
+            try:
+                al = amod.create_initial_allocation(d, zero)
+            except Exception as e:  # noqa
+                failures.append(dict(clause="big.initial_allocation_succeeds", observed=f"{type(e).__name__}: {e}", **info))
+                continue
+            nontriv += 1
+            got = {}
+            for x in al.allocations:
+                got[tuple(round(v, 9) for v in _bx(x.rect.center.x, x.rect.center.y, x.rect.shape.w, x.rect.shape.h))] = dict(x.alloc)
+            bad = None
+            if len(got) != len(cells):
+                bad = "one entry per refinable or fixed cell"
+            for (box_, is_fixed), e in zip(cells, exp):
+                g = got.get(tuple(round(v, 9) for v in box_))
+                if g is None or e is None:
+                    bad = bad or "cell missing / fixed cell without a unique owner"
+                    continue
+                if set(g) != set(e):
+                    bad = bad or f"modules listed in cell {box_}: {sorted(g)} instead of {sorted(e)}"
+                elif any(abs(g[m] - e[m]) > 1e-9 for m in e):
+                    bad = bad or f"ratios in cell {box_}: {g} instead of {e}"
+            for nm, (k, bs) in shapes.items():
+                want = sum(_ov(c[0], b) for c in cells for b in bs if (not c[1]) or k == "fixed") if k != "fixed" else sum((b[2] - b[0]) * (b[3] - b[1]) for b in bs)
+                if k != "fixed":
+                    want = sum(_ov(c[0], b) for c in cells if not c[1] for b in bs)
+                try:
+                    have = al.area(nm)
+                except KeyError:
+                    have = None if (zero or want > 0) else 0.0        # without zero entries a module that touches nothing is simply absent
+                if have is None or abs(have - want) > 1e-9 * max(1.0, want):
+                    bad = bad or f"area allocated to {nm}: {have} instead of {want}"
+            if bad:
+                failures.append(dict(clause="big.allocation_equals_the_geometric_overlap", observed=bad, **info))
+            if not samples:
+                samples.append(dict(die=die_doc, modules=list(doc["Modules"].items())[:3], cells=len(cells)))
+        if len(failures) >= 4 or replay:
+            break
+    Rectangle.undefine_epsilon()
+    return dict(evaluations=evals, distinct_nontrivial=nontriv, exhaustive=False, failures=failures[:4],
+                rule="random dies on an integer lattice (up to 3 blockages / specialised regions, up to 3 fixed modules disjoint from them, optionally "
+                     "refined into >= 3 or 7 regions) with netlists of 3-7 modules (squares from area and centre possibly sticking out, L-shaped soft and "
+                     "hard modules, fixed blocks), with and without zero entries (the latter only when every module touches a cell); expected allocation "
+                     f"by interval arithmetic from the documents; designs by number of fixed modules: {nfixed}", samples=samples, bound=f"{n_des} designs per chunk")
